@@ -272,7 +272,7 @@ def decide(pid, tier, jobs, repo, seed, only=None, verbose=False):
         allcfg = list(insts)
         # decoy instances: the same instance again, preceded in the same path by a silent run of a neighbouring instance
         # default: a sample of the instances (8 quick / 32 thorough); H(decoy='all') every instance, H(decoy=-1) none
-        dflt = 8 if tier == 'quick' else 32
+        dflt = 8 if tier == 'quick' else 16
         nd = len(insts) if h.decoy == 'all' else min(int(dflt if not h.decoy else max(h.decoy, 0)), len(insts))
         if nd and len(insts) > 1:
             step = max(len(insts) // nd, 1)
@@ -280,13 +280,13 @@ def decide(pid, tier, jobs, repo, seed, only=None, verbose=False):
                 if not isinstance(insts[j], dict):
                     continue
                 decoys = []
-                for off in ((1,) if tier == 'quick' else (1, max(len(insts) // 2, 2))):
+                for off in (1,):
                     d = insts[(j + off + seed) % len(insts)]
                     if d is not insts[j]:
                         decoys.append(d)
                 # "twins": the instance that differs in exactly one environment parameter (byte order first, then class, address
                 # size, offset size, version): state the library keeps per process and keys without that parameter shows up
-                decoys += _twins(insts, j, 1 if tier == 'quick' else 3)
+                decoys += _twins(insts, j, 1 if tier == 'quick' else 2)
                 for d in decoys:
                     allcfg.append(dict(insts[j], _decoy=d))
         per_h[h.name]['instances'] = len(allcfg)
